@@ -92,6 +92,8 @@ type HarnessStats struct {
 	Queries       int64
 	Sat, Unsat    int64
 	Unknown       int64
+	Choices       int64 // structural n-way decision points (shapes, operations, policies, map orders)
+	PCChecks      int64 // completed paths whose whole path condition was re-checked by the SMT solver
 	DomainDecided int64 // branch decisions settled exactly by finite-domain evaluation of a single byte/bool variable
 	SolverTime    time.Duration
 	Steps         int64
@@ -184,6 +186,8 @@ func (s *HarnessStats) merge(o *HarnessStats) {
 	s.AssumedAway += o.AssumedAway
 	s.Decisions += o.Decisions
 	s.DomainDecided += o.DomainDecided
+	s.PCChecks += o.PCChecks
+	s.Choices += o.Choices
 	s.Forks += o.Forks
 	s.Steps += o.Steps
 	if o.MaxPathSteps > s.MaxPathSteps {
@@ -502,6 +506,15 @@ func (w *worker) runPath(prefix []int64) {
 		callSSA(w.ip, nil, 0, w.ex.fn, nil, nil)
 		w.ip.sched.finish(w)
 		completed = true
+		// guard for the query-avoiding shortcuts (model cache, finite domains, known
+		// atoms): the path condition of every completed path must be satisfiable
+		// according to the SMT solver itself
+		if len(w.pc) > 0 && w.ex.cfg.Concrete == nil {
+			w.st.PCChecks++
+			if w.solver.Check(nil) == Unsat {
+				w.st.EngineErrors["completed path has an unsatisfiable path condition (shortcut unsound)"]++
+			}
+		}
 	}()
 	w.ip.sched.killAll()
 	w.solver.EndPath()
@@ -763,6 +776,7 @@ func (w *worker) choose(n int) int {
 		w.trace = append(w.trace, d)
 		return int(d)
 	}
+	w.st.Choices++
 	for k := n - 1; k >= 1; k-- {
 		w.pushAlt(int64(k))
 	}
